@@ -3,7 +3,7 @@ From Coq Require Import List NArith String Bool.
 From Coq.Strings Require Import Byte.
 From Jamm Require Import Bytes Fnv Consts CLayout.
 Import ListNotations.
-Open Scope N_scope.
+Local Open Scope string_scope. Local Open Scope list_scope. Local Open Scope N_scope.
 
 Record meta := mkMeta {
   m_page : N; m_magic : N; m_version : N; m_psz : N; m_root : N; m_next : N;
@@ -105,3 +105,27 @@ Definition select_slots (P : N) (s1 s2 : slot) : sel :=
 (* fresh database image: the four pages init_file writes *)
 Definition init_meta (P : N) (i : N) : meta :=
   with_hash (mkMeta i magic version P 3 0 4 2 0 0).
+
+(* ---------- damage to a header page (C12) ---------- *)
+Definition in_range (off lo len : N) : bool := (lo <=? off) && (off <? lo + len).
+Definition field_hashed (f : string) : bool := existsb (String.eqb f) hash_fields.
+(* an offset is significant when changing the byte there must invalidate the slot: it lies in a stored
+   field that is fed to the checksum (per the GENERATED hash_fields), in the checksum itself, or it is
+   the page-type byte when open() checks it *)
+Definition significant (checks_type : bool) (off : N) : bool :=
+  (checks_type && (off =? off_pg_type)) ||
+  (field_hashed "meta_page" && in_range off o_meta_page 4) ||
+  (field_hashed "magic" && in_range off o_magic 4) ||
+  (field_hashed "version" && in_range off o_version 4) ||
+  (field_hashed "pagesize" && in_range off o_pagesize 8) ||
+  (field_hashed "root.root_page" && in_range off o_root 8) ||
+  (field_hashed "root.next_int" && in_range off o_next 8) ||
+  (field_hashed "num_pages" && in_range off o_np 8) ||
+  (field_hashed "freelist_page" && in_range off o_fl 8) ||
+  (field_hashed "tx_id" && in_range off o_tx 8) ||
+  in_range off o_hash 8.
+Definition damage (pg : bytes) (off : N) (b : byte) : bytes := splice pg off [b].
+(* field values fit their widths *)
+Definition meta_wf (m : meta) : Prop :=
+  m_page m < 2 ^ 32 /\ m_magic m < 2 ^ 32 /\ m_version m < 2 ^ 32 /\ m_psz m < 2 ^ 64 /\ m_root m < 2 ^ 64 /\
+  m_next m < 2 ^ 64 /\ m_np m < 2 ^ 64 /\ m_fl m < 2 ^ 64 /\ m_tx m < 2 ^ 64 /\ m_hash m < 2 ^ 64.
